@@ -252,7 +252,18 @@ def check_modules(R, results, mlref, rs, mismatches, label):
                         for sg in known[:1]:
                             R.violation(sg, 'toolkit accepts the module, checker rejects its serialisation: ' + sg, replay)
                     else:
-                        R.violation('toolkit-accepts/checker-rejects:' + (','.join(fails) or 'module_ok'),
+                        # where the chain toolkit -> bytes -> checker left the model (class of the failing input)
+                        ma = mans.get((i, opt))
+                        twx = r['twin'][opt]
+                        if ma is None or not ma.startswith('OK'):
+                            tag = ':toolkit-serialises-what-the-model-refuses'
+                        elif twx.get('ok') and tuple(ma.split()[1:4]) != (twx['gamma'], twx['claim'], twx['proof']):
+                            tag = ':bytes-differ-from-model-serialiser'
+                        elif ma.split()[4] == 'ACCEPT':
+                            tag = ':rust-rejects-what-the-checker-model-accepts'
+                        else:
+                            tag = ''
+                        R.violation('toolkit-accepts/checker-rejects:' + (','.join(fails) or 'module_ok') + tag,
                                     'toolkit accepts the module, checker rejects its serialisation', replay)
         R.hist['module_ok' if wf else 'not-module_ok:' + ','.join(sorted(set(fails)))] = \
             R.hist.get('module_ok' if wf else 'not-module_ok:' + ','.join(sorted(set(fails))), 0) + 1
